@@ -31,3 +31,7 @@ def run(ctx):
                 ctx.known_finding('id=restat-prune-ignores-recorded-deps ' + bad[0][:220]); return None
         return bad
     engcommon.run_engine_property(ctx, 'C03', scan_accept=500, oracles=[('minimality', orc)], faults=0.0, n=50, extra_hists=extra, feat=dict(dyndep=0.0))
+    # the history-level model (HistDefs / HistMinimal: theorems of Properties_C03hist.v) run against the real engine: the set of
+    # commands run after every change must be the same on both sides (exact rule, CleanNode-faithful loop)
+    import histmodel
+    histmodel.hook(ctx, 'C03', quick=300, thorough=4000, key='hist_model_run_sets')
